@@ -62,9 +62,26 @@ static void intres(double v, long long& r, long long& res) {
   r = std::llround(v); double d = std::fabs(v - (double)r) * 1e6; res = d > 1e6 ? 1000000 : std::llround(d);
 }
 
-template<class C> static std::string proj(const var_opt_sketch<typename C::T>& s) {
+// traversal idioms: range-for, explicit loop, and the idioms that COPY iterators (container range constructor, std::copy,
+// std::for_each, the value of it++, named iterators handed by value to a helper); all must show the same sample
+static const int NIDIOMS = 7;
+static const char* const IDIOMS[NIDIOMS] = {"range-for", "iterator", "range-ctor", "std::copy", "std::for_each", "postfix-value", "by-value"};
+template<class It, class F> static void walk_by_value(It first, It last, F f) { for (; first != last; ++first) f(*first); }
+template<class S, class T, class F> static void traverse(const S& s, int idiom, const T*, F f) {
+  typedef std::pair<T, double> P;
+  switch (idiom) {
+    case 0: { for (auto p : s) f(p.first, p.second); break; }
+    case 1: { for (auto it = s.begin(); it != s.end(); ++it) f((*it).first, (*it).second); break; }
+    case 2: { auto b = s.begin(); auto e = s.end(); std::vector<P> v(b, e); for (const auto& x : v) f(x.first, x.second); break; }
+    case 3: { auto b = s.begin(); auto e = s.end(); std::vector<P> v; std::copy(b, e, std::back_inserter(v)); for (const auto& x : v) f(x.first, x.second); break; }
+    case 4: { auto b = s.begin(); auto e = s.end(); std::for_each(b, e, [&f](const std::pair<const T&, const double>& p) { f(p.first, p.second); }); break; }
+    case 5: { auto it = s.begin(); auto e = s.end(); while (it != e) { auto cur = it++; f((*cur).first, (*cur).second); } break; }
+    default: { auto b = s.begin(); auto e = s.end(); walk_by_value(b, e, [&f](const std::pair<const T&, const double>& p) { f(p.first, p.second); }); break; }
+  }
+}
+template<class C> static std::string proj(const var_opt_sketch<typename C::T>& s, int idiom = 0) {
   std::vector<long long> xs; std::vector<double> ws;
-  for (auto p : s) { xs.push_back(C::id(p.first)); ws.push_back(p.second); if (xs.size() > 100000) break; }
+  traverse(s, idiom, (const typename C::T*)nullptr, [&xs, &ws](const typename C::T& it, double w) { if (xs.size() < 100000) { xs.push_back(C::id(it)); ws.push_back(w); } });
   size_t m = xs.size();
   std::vector<long long> wI(m), g(m), gw, gres; std::vector<double> gval; std::vector<int> gcnt;
   for (size_t i = 0; i < m; i++) {
@@ -89,7 +106,7 @@ template<class C> struct Seg {
   typedef typename C::T T;
   typedef var_opt_sketch<T> SK;
   typedef var_opt_union<T> UN;
-  static const int NS = 5, NU = 2, NB = 4;
+  static const int NS = 5, NU = 3, NB = 4;
   static const long long CAP = 100000, UCAP = 400000;
   vt::Rng& g;
   std::unique_ptr<SK> sk[NS]; std::vector<int> ids[NS]; bool restored[NS], fromUnion[NS]; int prof[NS]; long long total[NS]; long giantAt[NS];
@@ -171,6 +188,7 @@ template<class C> struct Seg {
   void opObs(int i) {
     const SK& s = *sk[i];
     Ev e("Obs"); e.i("id", i); tag(e, i); e.raw("s", proj<C>(s));
+    { int idiom = 1 + (int)g.below(NIDIOMS - 1); e.str("idiom", IDIOMS[idiom]).raw("sx", proj<C>(s, idiom)); }
     try {
     struct P { const char* name; int kind; };
     static const P PS[] = {{"all", 0}, {"none", 1}, {"even", 2}, {"mod3", 3}, {"heavy", 4}, {"light", 5}};
@@ -305,6 +323,22 @@ template<class C> struct Seg {
     un[u]->reset(); uids[u].clear(); utotal[u] = 0;
     Ev e("UReset"); e.i("u", u); utag(e, u); e.emit();
   }
+  // copy / move construction and copy / move ASSIGNMENT between union objects (the target may be in any state)
+  void opUCopy(int u, int v, int how) {
+    if (!un[v] && (how == 1 || how == 3)) how -= 1;          // assignment needs an existing target
+    std::string threw;
+    try {
+      if (how == 0) un[v].reset(new UN(*un[u]));
+      else if (how == 1) *un[v] = *un[u];
+      else if (how == 2) un[v].reset(new UN(std::move(*un[u])));
+      else *un[v] = std::move(*un[u]);
+    } catch (std::exception& ex) { threw = clean(ex.what()); if (threw.empty()) threw = "exception"; }
+    uids[v] = uids[u]; utotal[v] = utotal[u]; urestored[v] = urestored[u];
+    Ev e("UCopy"); e.i("src", u).i("dst", v).str("how", how == 0 ? "copy-ctor" : how == 1 ? "copy-assign" : how == 2 ? "move-ctor" : "move-assign"); utag(e, v);
+    if (!threw.empty()) e.str("threw", threw);
+    e.emit();
+    if (how >= 2) udrop(u);       // moved from
+  }
   void opUSer(int u, int b) {
     unsigned hdr = drawHdr(g);
     std::string threw; std::vector<uint8_t> bytes; std::string st; size_t adv = 0;
@@ -366,7 +400,7 @@ template<class C> struct Seg {
         if (!un[u] || c == 0) { long k = g.chance(50) ? drawK() : g.range(1, 2 * maxk); opUNew(u, k); }
         else if (c <= 6) { if (disjoint(u, i) && utotal[u] + total[i] <= UCAP && uids[u].size() + ids[i].size() < 1200) opUUpdate(u, i, g.chance(35)); }
         else if (c <= 10) { int j = (int)g.below(NS); opUResult(u, j); if (sk[j] && g.chance(50)) opObs(j); }
-        else if (c == 11) { if (g.chance(40)) opUReset(u); }
+        else if (c == 11) { if (g.chance(40)) opUReset(u); else { int v = (int)g.below(NU); if (v != u) opUCopy(u, v, (int)g.below(4)); } }
         else { int b = (int)g.below(NB); opUSer(u, b); }
       } else if (op < upd + 22 + serde_pct) {
         int b = (int)g.below(NB);
@@ -473,6 +507,91 @@ template<class C> struct Seg {
       if (!threw.empty()) { e.str("threw", threw).emit(); return; }
       std::string ts(sk[0]->to_string().c_str());
       e.i("h", parse_h(ts)).raw("s", proj<C>(*sk[0])).emit();
+    }
+  }
+
+  // ---- internal states ("modes") of a union's gadget, reached through the public API ----
+  // 0 empty; 1 exact (only exact-mode inputs, all fit); 2 pseudo-exact (one estimation-mode pure-reservoir input whose
+  // samples fit max_k, optionally an exact input of items not lighter than its tau): marked items in H, one tau;
+  // 3 marked items of different tau in H (two estimation-mode inputs that both fit); 4 gadget itself in estimation
+  // mode (more samples offered than max_k); 5 marked heavy item next to an estimation-mode gadget
+  static const int NMODES = 6;
+  void feedSketch(int u, long k, long n, long wlo, long whi) {
+    opNew(4, k); for (long t = 0; t < n && sk[4]; t++) opUpdate(4, wlo == whi ? wlo : g.range(wlo, whi), g.chance(30));
+    if (sk[4] && un[u]) opUUpdate(u, 4, g.chance(40));
+    drop(4);
+  }
+  void feedMode(int u, int mode, long mk) {
+    if (!un[u]) return;
+    long half = std::max(1L, mk / 2);
+    switch (mode) {
+      case 0: break;
+      case 1: feedSketch(u, mk + 3, g.range(1, half), 1, 9); if (g.chance(50)) feedSketch(u, 4, g.range(1, std::min(4L, half)), 1, 9); break;
+      case 2: { long k = g.range(1, half); long w = g.range(1, 20);
+                feedSketch(u, k, k + g.range(1, 30), w, w);
+                if (g.chance(50)) feedSketch(u, mk, g.range(1, std::max(1L, mk - k)), 2000, 3000); break; }
+      case 3: { long k1 = g.range(1, half), k2 = g.range(1, std::max(1L, mk - k1));
+                feedSketch(u, k1, k1 + g.range(1, 20), 1, 1); feedSketch(u, k2, k2 + g.range(1, 20), 10, 10); break; }
+      case 4: feedSketch(u, 2 * mk + 2, mk + g.range(1, 12), 1, 9); if (g.chance(50)) feedSketch(u, 3, g.range(4, 20), 1, 5); break;
+      case 5: feedSketch(u, 2 * mk + 2, mk + g.range(1, 12), 1, 9); feedSketch(u, 1, g.range(2, 6), 4000, 4000); break;
+    }
+  }
+  void resultObs(int u, int j, bool more) {
+    if (!un[u]) return;
+    opUResult(u, j); if (!sk[j]) return;
+    opObs(j);
+    if (more) { for (int t = 0; t < 3 && sk[j]; t++) opUpdate(j, g.range(1, 12), g.chance(40)); if (sk[j]) opObs(j); }
+  }
+  // reset() of every object from every mode, then a full SECOND LIFE in every mode, all clauses applied to it
+  void runSecondLife(long salt) {
+    for (int m1 = 0; m1 < NMODES; m1++) for (int m2 = 0; m2 < NMODES; m2++) {
+      long mk = g.range(4, 12);
+      opUNew(0, mk); feedMode(0, m1, mk);
+      if ((m1 + m2 + salt) % 2 == 0) resultObs(0, 3, false);
+      if (!un[0]) continue;
+      opUReset(0);
+      if ((m1 * NMODES + m2 + salt) % 3 == 0) resultObs(0, 3, false);      // the empty result of the reset union
+      feedMode(0, m2, mk);
+      resultObs(0, 3, true);
+      for (int i = 0; i < NS; i++) drop(i);
+      udrop(0);
+    }
+    // sketches: 0 empty, 1 warm-up, 2 estimation with exact heavy items, 3 pure reservoir, 4 one giant item
+    for (int m1 = 0; m1 < 5; m1++) for (int m2 = 0; m2 < 5; m2++) {
+      long k = g.range(2, 9);
+      opNew(0, k);
+      for (int life = 0; life < 2 && sk[0]; life++) {
+        int m = life == 0 ? m1 : m2;
+        long n = m == 0 ? 0 : m == 1 ? g.range(1, k) : k + g.range(1, 20);
+        for (long t = 0; t < n && sk[0]; t++) {
+          long w = m == 2 ? (g.chance(25) ? g.range(500, 900) : g.range(1, 9)) : m == 3 ? 7 : m == 4 ? (t == 2 ? 30000 : g.range(1, 5)) : g.range(1, 9);
+          opUpdate(0, w, g.chance(40));
+        }
+        if (!sk[0]) break;
+        opObs(0);
+        if (life == 0) { opReset(0); if ((m1 + m2 + salt) % 2 == 0) opObs(0); }
+      }
+      if (sk[0]) { long mk = g.range(2, 10); opUNew(0, mk); opUUpdate(0, 0, g.chance(50)); feedMode(0, (int)((m1 + m2 + salt) % NMODES), mk); resultObs(0, 3, false); }
+      for (int i = 0; i < NS; i++) drop(i);
+      udrop(0);
+    }
+  }
+  // construction and ASSIGNMENT (copy and move) between unions whose gadgets are in different modes, then results and
+  // further inputs on BOTH sides
+  void runUnionAssign(long salt) {
+    for (int ma = 0; ma < NMODES; ma++) for (int mb = 0; mb < NMODES; mb++) {
+      int how = (int)((ma + 2 * mb + salt) % 4);
+      long mka = g.range(4, 12), mkb = g.chance(50) ? mka : g.range(4, 12);
+      opUNew(0, mka); feedMode(0, ma, mka);
+      opUNew(1, mkb); feedMode(1, mb, mkb);
+      if (!un[0] || !un[1]) { for (int u = 0; u < NU; u++) udrop(u); continue; }
+      if ((ma + mb + salt) % 3 == 0) resultObs(1, 3, false);
+      opUCopy(0, 1, how);                                   // 1 := 0
+      for (int u = 0; u < 2; u++) if (un[u]) resultObs(u, 2 + u, false);
+      for (int u = 0; u < 2; u++) if (un[u]) { feedMode(u, (int)((ma + mb + u + salt) % NMODES), u == 0 ? mka : mka); resultObs(u, 2 + u, u == 1); }
+      if (un[1] && (ma + salt) % 2 == 0) { opUSer(1, 0); if (blob[0].live) { opUDeser(0, 2); resultObs(2, 3, false); } }
+      for (int i = 0; i < NS; i++) drop(i);
+      for (int u = 0; u < NU; u++) udrop(u);
     }
   }
 
@@ -621,6 +740,11 @@ int main(int argc, char** argv) {
   if (!design && vt::argl(argc, argv, "--edges", 1)) {
     { Ev("Begin").i("seg", segno++).str("type", "i64").str("kind", "directed-restore-edges").emit(); Seg<ConvI> s(g, maxk); s.directedRestoreEdges(); }
     { Ev("Begin").i("seg", segno++).str("type", "str").str("kind", "directed-restore-edges").emit(); Seg<ConvS> s(g, maxk); s.directedRestoreEdges(); }
+  }
+  if (!design && vt::argl(argc, argv, "--lives", 1)) {
+    bool str = (seed % 2) == 1;
+    { Ev("Begin").i("seg", segno++).str("type", str ? "str" : "i64").str("kind", "second-life").emit(); if (str) { Seg<ConvS> s(g, maxk); s.runSecondLife((long)seed); } else { Seg<ConvI> s(g, maxk); s.runSecondLife((long)seed); } }
+    { Ev("Begin").i("seg", segno++).str("type", str ? "i64" : "str").str("kind", "union-assign").emit(); if (!str) { Seg<ConvS> s(g, maxk); s.runUnionAssign((long)seed); } else { Seg<ConvI> s(g, maxk); s.runUnionAssign((long)seed); } }
   }
   long regimes = vt::argl(argc, argv, "--regimes", design ? 0 : 16);
   if (regimes > 0) {
